@@ -15,7 +15,7 @@ LEVEL = "exploration"
 LEVEL_TEXT = ("Complete enumeration, for 13 base programs that together contain every statement kind and every operand shape (generated "
               "programs plus the repository's sample source), of every applicable site of every listed presentation change: blank line, "
               "full-line ; comment, one-line and multi-line /* */ comment before each line; indentation by spaces or a tab, trailing "
-              "spaces, end-of-line ; comment on each line; a space before/after every operator and comma; a space after an opening and "
+              "spaces, end-of-line ; comment on each line; no newline after the last line; a space before/after every operator and comma; a space after an opening and "
               "before a closing bracket of an operand; upper-casing and mixed-casing each mnemonic and hexadecimal literal, upper-casing each size suffix and index register; comments with star runs, quotes and braces inside; "
               "moving every contiguous run of top-level statements into an .include file (also the same file included several times, and nested includes). All single edits and all unordered pairs "
               "(quick: pairs within an 8-line window, all pairs for the smaller programs) are applied and the variant's blocks, labels "
@@ -237,6 +237,7 @@ def all_edits(lines):
         for s in line_sites(line):
             edits.append((i, s[0], s[1], s[2]))
     edits.append((len(lines), -1, "blank-before", None))  # blank line at the very end
+    edits.append((len(lines) - 1, 10 ** 6 + 1, "no-final-newline", None))  # the text ends without a newline
     return edits
 
 
@@ -258,6 +259,8 @@ def apply_edits(lines, edits):
             out[i] = "\t" + out[i]
         elif kind == "trailing-spaces":
             out[i] = out[i] + "   "
+        elif kind == "no-final-newline":
+            out.append("\0NOFINALNEWLINE")
         elif kind == "eol-comment":
             out[i] = out[i] + " ; trailing comment"
         elif kind == "eol-tricky-comment":
@@ -352,7 +355,10 @@ def run_case(case):
 
     def try_variant(var_lines, extra_files, tag):
         nonlocal evals, example
-        text = "\n".join(var_lines) + "\n"
+        if var_lines and var_lines[-1] == "\0NOFINALNEWLINE":
+            text = "\n".join(var_lines[:-1])
+        else:
+            text = "\n".join(var_lines) + "\n"
         out = observe(text, extra_files or None)
         evals += 1
         diff = same(base, out)
@@ -404,6 +410,7 @@ def run_case(case):
                 continue
             v, moved = with_include(lines, run)
             try_variant(v, {"moved.s": moved}, "moved-to-include")
+            try_variant(v, {"moved.s": moved.rstrip("\n") + " ; last line, no newline"}, "moved-to-include+eol-comment+no-final-newline")
             # combined with every in-line edit (applied before the move, line indices unchanged)
             for e in inline:
                 if (run[1] - run[0]) > 3:
